@@ -1,3 +1,4 @@
+import JominiModel.Proofs.TextReaderCut
 import JominiModel.Proofs.BinDeCutDoc
 import JominiModel.Proofs.BinCut
 import JominiModel.Proofs.TextTapeCut
@@ -7,12 +8,33 @@ import JominiModel.Proofs.BinDeCut
 /-
 C19 — Truncated documents never yield fabricated data.
 
-Obligations: every `C19_…` theorem of the files listed in tools/meta/C19.json plus the
-restatements below.  Proved so far: the binary lexer level (`C19_lex_prefix`: lexing a prefix
-yields exactly the tokens of the full input that end at or before the cut, a clean end iff the cut
-is a token boundary, otherwise `eof`) and the text lexeme level (`C19_quote_not_extended`,
-`C19_scalar_not_merged`).  The tape / deserializer level (`C19_bin_tape`, `C19_text_tape`) is
-decided by correspondence (`tcut`, `bcut`) and the cut oracles of harness/src/props/c19.rs only.
+Obligations: every `C19_…` theorem of the files listed in tools/meta/C19.json (the statements live next to their
+proofs; the audit collects them by prefix) plus the restatements below.
+
+* Binary lexer: `C19_lex_prefix` — lexing a prefix yields exactly the tokens of the full input that end at or before
+  the cut, a clean end iff the cut is a token boundary, otherwise `eof`.
+* Binary tape (Proofs/BinTapeCut.lean), all bytes, both parsers: `C19_bin_tape_cut_point`, `_prefix`, `_cut_offset`
+  (an accepted cut stands at depth 0 in key state, or one stray byte behind such a point), `_cut_error` and its two
+  instances `C19_bin_tape_cut_inside_token_error`, `C19_bin_tape_cut_inside_container_error`.
+* Binary sequential deserializers (Proofs/BinDeCut.lean, BinDeCutDoc.lean): `C19_bin_de_cut` — an accepted cut after
+  any number of lexemes yields exactly the value of the complete top-level fields.
+* Text lexeme level: `C19_quote_not_extended`, `C19_scalar_not_merged` (no table hypothesis any more).
+* Text READER on byte-level cuts (Proofs/TextReaderCut.lean): `C19_text_reader_cut`, `_stream`, `_forms`,
+  `C19_known_bom_cut` — prefix of the full run's tokens plus at most one prefix-shortened unquoted scalar.
+* Text tape (Proofs/TextTapeCut.lean), ALL inputs and ALL cuts, about the PINNED split state `CutSplit` (the state
+  both runs are in after the same `j` iterations): `C19_text_tape_split` (+ `_split_pins`: the relation determines
+  both tapes), `C19_text_tape_common_prefix`, `C19_text_tape_tail_sharp` (at most 6 tokens behind the split tape;
+  every settled token of the split tape is common; scalars carry the full input's bytes),
+  `C19_text_tape_fields_partial` (complete top-level fields inside the final part; missing: the field being cut and
+  what follows it), and for cuts on lexeme boundaries `C19_text_tape_boundary_cut` (the truncated tape IS the full
+  run's tape at that iteration plus the EOF auto-close).  Each restated theorem carries a NON-instance example: for
+  two unrelated successful parses the conclusion is refuted (an independent review had found the earlier,
+  existentially quantified forms satisfiable by unrelated parses).
+* Text deserializers (Proofs/TextDeCut.lean): `C19_text_de` and the spec forms.
+
+Decided by correspondence / oracle only (`tcut`, `bcut`, the cut oracles of harness/src/props/c19.rs, the x-scale
+truncation ops): the classification of the ≤ 6 tail tokens for cuts INSIDE a lexeme; the fate of containers open at
+the split point.
 -/
 namespace Jomini.Props.C19
 open Jomini
